@@ -452,6 +452,197 @@ C05A_Failures(rec) ==
        \cup (IF rec.res.nerr > 0 \/ C02_Yield(rec.toks, rec.res.tree) THEN {} ELSE {"yield"})
        \cup (IF rec.res.nerr > 0 \/ WFX(rec.res.tree, rec.cl) THEN {} ELSE {"grouping_not_by_level"})
 
+
+---------------------------------------------------------------------------
+(***************************************************************************)
+(* Parse steps and syntactic nesting, read off a tree and its token list   *)
+(* (for C04 and C16).  A "request" is one invocation of the statement or   *)
+(* expression parse function: every statement, and every expression in an  *)
+(* operand position (statement expression, initialiser, condition, right   *)
+(* operand, prefix operand, argument, element, key, value, property,        *)
+(* index, grouped expression).  Requests are listed in source order of      *)
+(* their first token, outer before inner: [kind, tok, infn, inner] with     *)
+(* inner in {"top", "block", "fnbody"}.                                     *)
+(***************************************************************************)
+Rq(kind, i, c) == [kind |-> kind, tok |-> i, infn |-> c.infn, inner |-> c.inner]
+TopCx == [infn |-> FALSE, inner |-> "top"]
+FnCx == [infn |-> TRUE, inner |-> "fnbody"]
+BlockCx(c) == [c EXCEPT !.inner = "block"]
+ParamsLen(ps) == IF Len(ps.c) = 0 THEN 0 ELSE 2 * Len(ps.c) - 1
+RI(r, i) == [r |-> r, i |-> i]
+
+\* Every operator returns [r |-> requests in source order, i |-> index of the token after the construct].
+RECURSIVE EIn(_, _, _, _), EReq(_, _, _, _), EListReq(_, _, _, _), ObjReq(_, _, _, _),
+          SReq(_, _, _, _), SSeqReq(_, _, _, _)
+\* expression e, requested at token i
+EReq(e, i, c, toks) == LET x == EIn(e, i, c, toks) IN RI(<<Rq("expr", i, c)>> \o x.r, x.i)
+\* expressions es, the first at i, separated by one token; i = index after the last one (i if none)
+EListReq(es, i, c, toks) ==
+  IF Len(es) = 0 THEN RI(<<>>, i)
+  ELSE LET a == EReq(es[1], i, c, toks) IN
+       IF Len(es) = 1 THEN a
+       ELSE LET b == EListReq(Tail(es), a.i + 1, c, toks) IN RI(a.r \o b.r, b.i)
+ObjReq(kv, i, c, toks) ==
+  IF Len(kv) = 0 THEN RI(<<>>, i)
+  ELSE LET k == EReq(kv[1], i, c, toks)
+           v == EReq(kv[2], k.i + 1, c, toks)
+       IN IF Len(kv) = 2 THEN RI(k.r \o v.r, v.i)
+          ELSE LET b == ObjReq(SubSeq(kv, 3, Len(kv)), v.i + 1, c, toks) IN RI(k.r \o v.r \o b.r, b.i)
+\* requests made while parsing e (which starts at i), not counting the request for e itself
+EIn(e, i, c, toks) ==
+  CASE e.k \in {"bin", "cbin", "asg", "casg", "mem"} ->
+         LET l == EIn(e.c[1], i, c, toks)
+             r == EReq(e.c[2], l.i + 1, c, toks)
+         IN RI(l.r \o r.r, r.i)
+    [] e.k \in {"un", "cun"} -> EReq(e.c[1], i + 1, c, toks)
+    [] e.k = "grp" -> LET x == EReq(e.c[1], i + 1, c, toks) IN RI(x.r, x.i + 1)
+    [] e.k \in {"post", "cpost"} -> LET l == EIn(e.c[1], i, c, toks) IN RI(l.r, l.i + 1)
+    [] e.k = "call" ->
+         LET f == EIn(e.c[1], i, c, toks)
+             a == EListReq(SubSeq(e.c, 2, Len(e.c)), f.i + 1, c, toks)
+         IN RI(f.r \o a.r, a.i + 1)
+    [] e.k = "idx" ->
+         LET o == EIn(e.c[1], i, c, toks)
+             x == EReq(e.c[2], o.i + 1, c, toks)
+         IN RI(o.r \o x.r, x.i + 1)
+    [] e.k = "arr" -> LET a == EListReq(e.c, i + 1, c, toks) IN RI(a.r, a.i + 1)
+    [] e.k = "obj" -> LET a == ObjReq(e.c, i + 1, c, toks) IN RI(a.r, a.i + 1)
+    [] e.k = "fn" ->
+         LET j == i + 1 + (IF IsNilNode(e.c[1]) THEN 0 ELSE 1) + 1 + ParamsLen(e.c[2]) + 1
+             b == SSeqReq(e.c[3].c, j + 1, FnCx, toks)
+         IN RI(b.r, b.i + 1)
+    [] e.k = "lete" -> IF IsNilNode(e.c[2]) THEN RI(<<>>, i + 2) ELSE EReq(e.c[2], i + 3, c, toks)
+    [] OTHER -> RI(<<>>, i + 1)
+
+SkipSemi(toks, j) == IF j <= Len(toks) /\ toks[j].ty = "SEMICOLON" THEN j + 1 ELSE j
+\* statement s whose first token is toks[i]
+SReq(s, i, c, toks) ==
+  LET me == <<Rq("stmt", i, c)>> IN
+  CASE s.k = "expr" -> LET x == EReq(s.c[1], i, c, toks) IN RI(me \o x.r, SkipSemi(toks, x.i))
+    [] s.k = "let" ->
+         IF IsNilNode(s.c[2]) THEN RI(me, SkipSemi(toks, i + 2))
+         ELSE LET x == EReq(s.c[2], i + 3, c, toks) IN RI(me \o x.r, SkipSemi(toks, x.i))
+    [] s.k = "ret" ->
+         IF IsNilNode(s.c[1]) THEN RI(me, SkipSemi(toks, i + 1))
+         ELSE LET x == EReq(s.c[1], i + 1, c, toks) IN RI(me \o x.r, SkipSemi(toks, x.i))
+    [] s.k = "blk" -> LET b == SSeqReq(s.c, i + 1, BlockCx(c), toks) IN RI(me \o b.r, b.i + 1)
+    [] s.k = "fdecl" ->
+         LET j == i + 2 + 1 + ParamsLen(s.c[2]) + 1
+             b == SSeqReq(s.c[3].c, j + 1, FnCx, toks)
+         IN RI(me \o b.r, b.i + 1)
+    [] s.k = "if" ->
+         LET cd == EReq(s.c[1], i + 2, c, toks)
+             th == SReq(s.c[2], cd.i + 1, c, toks)
+         IN IF IsNilNode(s.c[3]) THEN RI(me \o cd.r \o th.r, th.i)
+            ELSE LET el == SReq(s.c[3], th.i + 1, c, toks) IN RI(me \o cd.r \o th.r \o el.r, el.i)
+    [] s.k = "while" ->
+         LET cd == EReq(s.c[1], i + 2, c, toks)
+             b  == SReq(s.c[2], cd.i + 1, c, toks)
+         IN RI(me \o cd.r \o b.r, b.i)
+    [] s.k = "for" ->
+         LET r1 == IF IsNilNode(s.c[1]) THEN RI(<<>>, i + 2)
+                   ELSE IF s.c[1].k = "lete" THEN EIn(s.c[1], i + 2, c, toks) ELSE EReq(s.c[1], i + 2, c, toks)
+             r2 == IF IsNilNode(s.c[2]) THEN RI(<<>>, r1.i + 1) ELSE EReq(s.c[2], r1.i + 1, c, toks)
+             r3 == IF IsNilNode(s.c[3]) THEN RI(<<>>, r2.i + 1) ELSE EReq(s.c[3], r2.i + 1, c, toks)
+             b  == SReq(s.c[4], r3.i + 1, c, toks)
+         IN RI(me \o r1.r \o r2.r \o r3.r \o b.r, b.i)
+    [] OTHER -> RI(me, i + 1)
+SSeqReq(ss, i, c, toks) ==
+  IF Len(ss) = 0 THEN RI(<<>>, i)
+  ELSE LET a == SReq(ss[1], i, c, toks)
+           b == SSeqReq(Tail(ss), a.i, c, toks)
+       IN RI(a.r \o b.r, b.i)
+Requests(tree, toks) == SSeqReq(tree.c, 1, TopCx, toks).r
+
+---------------------------------------------------------------------------
+(* C04 / C16 on REAL observations.  rec = [inst (installation history: "s" statement, "e"     *)
+(* pass-through expression, "r" re-entrant expression, "t" token interceptor), toks (real,    *)
+(* with sl, sc, ch0 = byte at the token's start), tree, nerr, err, out (compiled text or       *)
+(* ""), plog / tlog (events of the statement+expression / token interceptors), ctx, infn      *)
+(* (after parsing), base = the same fields from the run with NO interceptor installed]        *)
+KindCount(inst, ks) == Len(SelectSeq(inst, LAMBDA x : x \in ks))
+\* expression interceptors that run on every step: up to and including the first re-entrant one
+ActiveExpr(inst) ==
+  LET es == SelectSeq(inst, LAMBDA x : x \in {"e", "r"})
+      firstR == IF \E x \in 1..Len(es) : es[x] = "r" THEN CHOOSE y \in 1..Len(es) : es[y] = "r" /\ \A q \in 1..(y - 1) : es[q] # "r" ELSE Len(es)
+  IN firstR
+
+\* Well-nested groups: enter 1..m (same token), nested groups, exit m..1.  Returns the index after
+\* the group starting at position p of log, or 0 if malformed.  groupsFrom parses groups until an exit.
+RECURSIVE GroupEnd(_, _, _, _), GroupsEnd(_, _, _), Enters(_, _, _, _), Exits(_, _, _)
+Enters(log, p, k, m) ==     \* enters k..m at p.., all with the token of the first
+  IF k > m THEN p
+  ELSE IF p <= Len(log) /\ log[p].ph = "enter" /\ log[p].id = k /\ (k = 1 \/ log[p].tok = log[p - 1].tok)
+       THEN Enters(log, p + 1, k + 1, m) ELSE 0
+Exits(log, p, k) ==         \* exits k..1 at p..
+  IF k = 0 THEN p
+  ELSE IF p > 0 /\ p <= Len(log) /\ log[p].ph = "exit" /\ log[p].id = k THEN Exits(log, p + 1, k - 1) ELSE 0
+GroupsEnd(log, p, m) ==     \* zero or more groups starting at p; index of the first non-enter
+  IF p = 0 THEN 0
+  ELSE IF p <= Len(log) /\ log[p].ph = "enter" THEN GroupsEnd(log, GroupEnd(log, p, m, 0), m) ELSE p
+GroupEnd(log, p, m, dummy) ==
+  LET a == Enters(log, p, 1, m) IN
+  IF a = 0 THEN 0 ELSE Exits(log, GroupsEnd(log, a, m), m)
+WellNested(log, m) == m = 0 \/ GroupsEnd(log, 1, m) = Len(log) + 1
+
+OfKind(log, kind) == SelectSeq(log, LAMBDA e : e.kind = kind)
+FirstEnters(log) == SelectSeq(log, LAMBDA e : e.ph = "enter" /\ e.id = 1)
+
+\* token interceptors: once per token, lexer on the first byte of the lexeme; only EOF is re-requested
+TokenLogOK(toks, ten, tex) ==
+  /\ Len(ten) = Len(tex)
+  /\ Len(tex) >= Len(toks)
+  /\ \A j \in 1..Len(toks) :
+       /\ tex[j].l = toks[j].sl
+       /\ tex[j].c = toks[j].sc
+       /\ ten[j].l = toks[j].sl
+       /\ ten[j].c = toks[j].sc
+       /\ ten[j].ch = toks[j].ch0
+  /\ \A q \in (Len(toks) + 1)..Len(tex) : tex[q].ch = 0
+
+C04_Failures(rec) ==
+  LET ns == KindCount(rec.inst, {"s"})
+      ne == ActiveExpr(rec.inst)
+      nt == KindCount(rec.inst, {"t"})
+      sl == OfKind(rec.plog, "stmt")
+      el == SelectSeq(OfKind(rec.plog, "expr"), LAMBDA e : e.id <= ne)
+      clean == rec.nerr = 0 /\ rec.base.nerr = 0
+      reqs == IF clean THEN Requests(rec.tree, rec.toks) ELSE <<>>
+      sreq == SelectSeq(reqs, LAMBDA q : q.kind = "stmt")
+      ereq == SelectSeq(reqs, LAMBDA q : q.kind = "expr")
+      sent == FirstEnters(sl)
+      eent == FirstEnters(el)
+      tex(i) == SelectSeq(rec.tlog, LAMBDA e : e.ph = "exit" /\ e.id = i)
+      ten(i) == SelectSeq(rec.tlog, LAMBDA e : e.ph = "enter" /\ e.id = i)
+  IN
+  (IF rec.tree = rec.base.tree /\ rec.nerr = rec.base.nerr /\ rec.err = rec.base.err /\ rec.errpos = rec.base.errpos
+      /\ rec.toks = rec.base.toks /\ rec.out = rec.base.out THEN {} ELSE {"not_transparent"})
+  \cup (IF WellNested(sl, ns) /\ WellNested(el, ne) THEN {} ELSE {"not_once_per_step_in_installation_order"})
+  \cup (IF ~clean \/ ns = 0 \/ [j \in 1..Len(sent) |-> sent[j].tok] = [j \in 1..Len(sreq) |-> sreq[j].tok]
+        THEN {} ELSE {"statement_steps_or_current_token"})
+  \cup (IF ~clean \/ ne = 0 \/ [j \in 1..Len(eent) |-> eent[j].tok] = [j \in 1..Len(ereq) |-> ereq[j].tok]
+        THEN {} ELSE {"expression_steps_or_current_token"})
+  \cup (IF \A i \in 1..nt : TokenLogOK(rec.toks, ten(i), tex(i))
+        THEN {} ELSE {"token_interceptor_not_once_per_token_at_first_byte"})
+
+CtxOK(inner, ctx) ==
+  CASE inner = "top" -> ctx = "global"
+    [] inner = "block" -> ctx = "block"
+    [] inner = "fnbody" -> ctx \in {"function", "block"}     \* a function body is a block owned by a function
+C16_Failures(rec) ==
+  LET clean == rec.nerr = 0
+      reqs == IF clean THEN Requests(rec.tree, rec.toks) ELSE <<>>
+      ent  == SelectSeq(rec.plog, LAMBDA e : e.ph = "enter")
+      find(kind, tok) == IF \E q \in 1..Len(reqs) : reqs[q].kind = kind /\ reqs[q].tok = tok
+                         THEN CHOOSE q \in 1..Len(reqs) : reqs[q].kind = kind /\ reqs[q].tok = tok ELSE 0
+  IN
+  (IF rec.ctx = "global" /\ ~rec.infn THEN {} ELSE {"context_not_back_at_top_level"})
+  \cup (IF ~clean \/ \A j \in 1..Len(ent) :
+              LET q == find(ent[j].kind, ent[j].tok) IN
+              q = 0 \/ (ent[j].infn = reqs[q].infn /\ CtxOK(reqs[q].inner, ent[j].ctx))
+        THEN {} ELSE {"context_query_differs_from_nesting"})
+
+
 \* roles the built-in grammar already gives to built-in tokens (seeds of parser/builder.go)
 BuiltinPrefixRole == BuiltinPrefix
 BuiltinInfixRole == DOMAIN BuiltinPrec
